@@ -48,11 +48,18 @@ type channelIterator struct {
 	source  <-chan *Msg
 	current storage.Iterator[string] // could easily be converted to generic
 	stopped bool
+	headErr error // error message taken off the channel by Head, still to be reported by Next
 }
 
 func (c *channelIterator) Next(ctx context.Context) (string, error) {
 	if c.stopped {
 		return "", storage.ErrIteratorDone
+	}
+
+	if c.headErr != nil {
+		err := c.headErr
+		c.headErr = nil
+		return "", err
 	}
 
 	for {
@@ -95,6 +102,10 @@ func (c *channelIterator) Head(ctx context.Context) (string, error) {
 		return "", storage.ErrIteratorDone
 	}
 
+	if c.headErr != nil {
+		return "", c.headErr
+	}
+
 	for {
 		// If no current iterator, fetch next from channel
 		if c.current == nil {
@@ -106,6 +117,7 @@ func (c *channelIterator) Head(ctx context.Context) (string, error) {
 					return "", storage.ErrIteratorDone
 				}
 				if msg.Err != nil {
+					c.headErr = msg.Err
 					return "", msg.Err
 				}
 				if msg.Iter != nil {
